@@ -841,6 +841,12 @@ func runMux(c *engine.Ctx) engine.Result {
 
 	r.Require("connections_returned_once", 20)
 	r.Require("connections_closed", 20)
+	// a source listener whose Accept fails with a temporary error
+	nerr := c.Pick(60, 600)
+	for i := 0; i < nerr; i++ {
+		runMuxErrorSource(c, i)
+	}
+	r.Require("error_source_scenarios", int64(nerr*9/10))
 	r.Require("window:accept_received_then_cancelled_before_recheck", 3)
 	r.Require("window:ingress_passed_closed_check_then_close_ran", 3)
 	r.Require("window:close_blocked_on_write_lock_while_sender_holds_read_lock", 3)
